@@ -35,12 +35,12 @@ ASSUMPTIONS = [
 RULE = ('one evaluation = one (program, annotations) triple / one printed condition / one eval_Sem run; distinct = distinct inputs; non-trivial (counted) = all VCs valid so the triple '
         'was judged, or the printed form was re-parsed, or eval_Sem succeeded')
 EXPLANATION = 'states are z3 integers; VC validity, triple validity w.r.t. the reference interpreter, and print/parse equivalence are z3 validity queries over all states'
-BUDGET_S = {'quick': 100, 'thorough': 1500}
+BUDGET_S = {'quick': 240, 'thorough': 1500}
 VARS = ['x', 'y']
 
 
 def bounds(tier):
-    return {'program_depth': 2, 'triples': 2500 if tier == 'quick' else 60000, 'loop_unrolling_K': 3 if tier == 'quick' else 5,
+    return {'program_depth': 2, 'triples': 2500 if tier == 'quick' else 60000, 'steering_programs': 'x := e; if g(x) then y := c1 else y := c2 with 8 e, 6 g, 6 constant pairs, 3 postconditions about y, 3 preconditions (2592)', 'loop_unrolling_K': 3 if tier == 'quick' else 5,
             'printed_conditions': 'all arithmetic expressions of depth <= 2 over x y 1 (2673) + boolean combinations (600 / 20000 seeded: half fixed shapes, half random nestings of & | --> ~ if-then-else to depth 3)',
             'eval_Sem_programs': 150 if tier == 'quick' else 3000}
 
@@ -134,7 +134,9 @@ AEXPRS = [C0, C1, X, Y, B('+', X, C1), B('-', X, C1), B('+', X, Y), B('-', X, Y)
 CONDS = [B('<', X, Y), B('<=', X, C0), B('==', X, Y), B('!=', X, C0), B('<', C0, Y), ('u', '~', B('<', X, Y)), B('&', B('<=', C0, X), B('<', X, Y)),
          B('|', B('<', X, C0), B('==', Y, C1)), B('-->', B('<', X, Y), B('<', X, B('+', Y, C1)))]
 ASSERTS = [('c', True), B('<=', X, Y), B('==', X, Y), B('<=', C0, X), B('==', B('+', X, Y), C2), B('<', X, Y), B('&', B('<=', C0, X), B('<=', C0, Y)),
-           B('!=', X, Y), B('==', B('-', X, Y), C1), B('-->', B('<=', C0, X), B('<=', C0, Y))]
+           B('!=', X, Y), B('==', B('-', X, Y), C1), B('-->', B('<=', C0, X), B('<=', C0, Y)),
+           # assertions about one variable only (the other variable then only steers control flow)
+           B('==', Y, C1), B('<=', C0, Y), B('<', Y, C2), B('==', X, C0), B('<', C0, X)]
 
 
 def rand_com(rnd, depth):
@@ -356,12 +358,43 @@ def judge_triple(prog, pre_d, post_d, K):
     return None, 'fine', True
 
 
+def steer_family():
+    """Programs in which one variable only steers control flow:  x := e; if g(x) then y := c1 else y := c2  (also with the
+    roles of a later assignment), with postconditions about y alone."""
+    if 'steer' in _FAM:
+        return _FAM['steer']
+    es = [B('+', X, C1), B('-', X, C1), B('-', X, B('+', C2, C1)), B('*', C2, X), C0, Y, B('-', Y, X), ('u', '-', X)]
+    gs = [B('<', C0, X), B('<', X, Y), B('==', X, C0), B('<=', X, C0), B('!=', X, C0), ('u', '~', B('<', X, C1))]
+    posts = [B('==', Y, C1), B('<=', C0, Y), B('<', Y, C2)]
+    out = []
+    for e in es:
+        for g in gs:
+            for c1 in (C0, C1, C2):
+                for c2 in (C0, C1, C2):
+                    if c1 == c2:
+                        continue
+                    prog = ('seq', ('asg', 'x', e), ('if', g, ('asg', 'y', c1), ('asg', 'y', c2)))
+                    for post in posts:
+                        for pre in ('wp', B('<', C0, X), ('c', True)):
+                            out.append((prog, post, pre))
+    _FAM['steer'] = out
+    return out
+
+
+_FAM = {}
+
+
 def run_triples(u, out):
     _, tier, seed, lo, n = u
     K = 3 if tier == 'quick' else 5
     rnd = random.Random('c20-%s-%s' % (seed, lo))
+    steer = steer_family() if u[0] == 'steer' else None
     for j in range(n):
-        if lo == 0 and j < len(LOOP_TEMPLATES) * 2:
+        if steer is not None:
+            if lo + j >= len(steer):
+                break
+            prog, post, pre = steer[lo + j]
+        elif lo == 0 and j < len(LOOP_TEMPLATES) * 2:
             prog, post, pre = LOOP_TEMPLATES[j // 2]
             pre = pre if j % 2 == 0 else 'wp'
         else:
@@ -578,6 +611,9 @@ def units(tier, seed):
     total = 2500 if tier == 'quick' else 60000
     for lo in range(0, total, 125):
         us.append(('triples', tier, seed, lo, 125))
+    ns = len(steer_family())
+    for lo in range(0, ns, 250):
+        us.append(('steer', tier, seed, lo, 250))
     na = len(arith_exprs())
     for lo in range(0, na, 300):
         us.append(('printed', tier, seed, 'arith', lo, lo + 300))
@@ -593,7 +629,7 @@ def units(tier, seed):
 
 def run_unit(u):
     out = {'evals': 0, 'keys': set(), 'cex': [], 'samples': [], 'inconclusive': 0, 'stats': {}}
-    if u[0] == 'triples':
+    if u[0] in ('triples', 'steer'):
         run_triples(u, out)
     elif u[0] == 'printed':
         run_printed(u, out)
